@@ -6,7 +6,7 @@ import ast
 import re
 
 from . import rule
-from ..model import Unresolved, walk_scope, parent, enclosing_function, qualname
+from ..model import Unresolved, walk_scope, parent, enclosing_function, enclosing_class, qualname, ancestors as ancestors_of
 from ..paths import U, Path, Evaluator
 from .. import q
 
@@ -81,14 +81,41 @@ def r2(rr, repo):
             fn_ok = any(k.startswith('truthy(fnmatch.fnmatch(') and v is True for k, v in p.facts.items())
             none = p.facts.get('isnone(self._allow)') is True
             falsy = p.facts.get('truthy(self._allow)') is False
-            rr.ob('True only via membership / wildcard match / explicit None', (member or fn_ok or none) and not (falsy and not (member or fn_ok or none)), mod, fn,
-                  witness=f'{p.pc_text()} => True', key=f'true-path|member={member}|fnmatch={fn_ok}|none={none}|falsy={falsy}')
+            if member or fn_ok or none:
+                rr.holds('True via membership / fnmatch / explicit None', mod, fn, witness=f'{p.pc_text()} => True', key=f'true-path|member={member}|fnmatch={fn_ok}|none={none}')
+            elif falsy:
+                rr.violated('an empty / falsy allow-list answers True (default-allow)', mod, fn, witness=f'{p.pc_text()} => True', key='true-path|falsy')
+            elif not [kk for kk, v in p.facts.items() if v is True and 'self._allow' in kk]:
+                rr.violated('a metric name is allowed by a test that does not consult the configured allow-list at all', mod, fn, witness=f'{p.pc_text()} => True', key='true-path|not-list-based')
+            else:
+                # a compiled-regex match: prefix matching (`.match` / `.search` of a pattern without an end anchor) admits every name that merely starts with an allowed pattern
+                rx = [kk for kk, v in p.facts.items() if v is True and kk.startswith('truthy(') and ('.match(' in kk or '.search(' in kk or '.fullmatch(' in kk)]
+                verdict = None
+                for kk in rx:
+                    if '.fullmatch(' in kk:
+                        verdict = True if verdict is None else verdict
+                        continue
+                    recv = kk[len('truthy('):kk.rfind('.match(' if '.match(' in kk else '.search(')]
+                    attr = recv.split('.')[-1]
+                    cls = enclosing_class(fn)
+                    builds = [c for c in q.calls_in(cls) if U(c.func) in ('re.compile', 'compile') and any(isinstance(t, ast.Attribute) and t.attr == attr for a in ancestors_of(c) if isinstance(a, ast.Assign) for t in a.targets)]
+                    helper = [f for f in cls.body if isinstance(f, ast.FunctionDef) and any(isinstance(c, ast.Call) and U(c.func) == 're.compile' for c in ast.walk(f))]
+                    srcs = ' '.join(U(f) for f in helper) + ' '.join(U(c) for c in builds)
+                    anchored = 'fnmatch.translate' in srcs or "\\Z" in srcs or "'$'" in srcs or '"$"' in srcs or ')$' in srcs
+                    verdict = False if not anchored else (True if verdict is None else verdict)
+                if verdict is False:
+                    rr.violated('wildcards are matched with an unanchored regex match (prefix match): a metric whose name merely starts with an allowed pattern is exported', mod, fn, witness=f'{p.pc_text()} => True', key='true-path|unanchored-regex')
+                elif verdict is True:
+                    rr.holds('True via an anchored regex match', mod, fn, witness=f'{p.pc_text()} => True', key='true-path|anchored-regex')
+                else:
+                    rr.unresolved('_is_allowed answers True through a predicate outside the rule vocabulary (membership, fnmatch, explicit None, anchored regex)', mod, fn, witness=f'{p.pc_text()} => True', key='true-path|unknown')
         elif val is False or val is None:
             pass
     rr.floor('paths of _is_allowed answering True', n, 2, mod, fn)
     # wildcard semantics is fnmatch over the list's own entries
     fm = [c for c in q.calls_in(fn) if U(c.func) in ('fnmatch.fnmatch', 'fnmatch.fnmatchcase', 'fnmatch')]
-    rr.ob('wildcards are matched with fnmatch(metric_name, pattern) over the configured entries', bool(fm) and all(U(c.args[0]) == param for c in fm), mod, fn, key='fnmatch-args')
+    if fm:
+        rr.ob('fnmatch is applied as fnmatch(metric_name, pattern)', all(U(c.args[0]) == param for c in fm), mod, fn, key='fnmatch-args')
 
 
 @rule('C16.R3', 'default is lock-down: read_allowlist returns a set on every path, the fall-through value is the empty set, and the client passes it unmodified')
